@@ -272,3 +272,47 @@ def friendly_selection(db):
     if k < 1:
         out.append(('vector-flag-site', False, 'no hash_friendly_unfriendly call site in compute_root_from_queries', cr.loc()))
     return out
+
+
+def elementwise(db, fn):
+    """For a function that maps a slice to a vector element by element -- `for x in xs { out.push(f(x)) }` or
+    `xs.iter().map(|x| f(x)).collect()` -- the def-use tree of f(x) in the function's own terms, with the input
+    element written ('ELEM', <tree of xs>). Returns (tree, form) or (None, reason)."""
+    import exprtree
+
+    def rewrite(t, f):
+        if isinstance(t, tuple):
+            t = tuple(rewrite(x, f) if k else x for k, x in enumerate(t))
+            return f(t)
+        if isinstance(t, dict):
+            return {k: rewrite(v, f) for k, v in t.items()}
+        return t
+
+    T = exprtree.Trees(db, fn)
+    pushes = [t for _, t in fn.calls() if t['f'].get('name') == 'push' and len(t.get('args', [])) == 2]
+    if len(pushes) == 1:
+        def loop_elem(t):
+            if t[0] == 'next' and len(t) == 2:
+                src = t[1]
+                while isinstance(src, tuple) and src[0] in ('iter', 'into_iter') and len(src) == 2:
+                    src = src[1]
+                return ('ELEM', src)
+            return t
+        return rewrite(T.operand(pushes[0]['args'][1]), loop_elem), 'loop'
+    rt = T.local(0)
+    if isinstance(rt, tuple) and rt[0] == 'collect' and len(rt) == 2 and isinstance(rt[1], tuple) and rt[1][0] == 'map' and len(rt[1]) == 3:
+        src, cl = rt[1][1], rt[1][2]
+        while isinstance(src, tuple) and src[0] in ('iter', 'into_iter') and len(src) == 2:
+            src = src[1]
+        if isinstance(cl, tuple) and cl[0] == 'closure' and cl[1] in db.fns:
+            ups = list(cl[2])
+            body = exprtree.Trees(db, db.fns[cl[1]]).local(0)
+
+            def clos(t):
+                if t == ('arg', 2):
+                    return ('ELEM', src)
+                if t[0] == 'proj' and t[1] == ('arg', 1) and isinstance(t[2], str) and t[2].isdigit() and int(t[2]) < len(ups):
+                    return ups[int(t[2])]
+                return t
+            return rewrite(body, clos), 'map'
+    return None, f'neither one push in a loop nor collect(map(..)): returns {exprtree.show(rt)[:100]}'
